@@ -168,6 +168,13 @@ package rule
 // getDisplayArch: a name other than b64/b32 is the table's name for the number; b64/b32 are only
 // used for the architectures getArch maps them back to (numbers through reverseArch, which init
 // builds as the inverse of AuditArchNames).
+// formatID: the listed text of a uid/gid is what getUID/getGID read back as the same number:
+// -1 only for the unset id, every other id as its decimal number.
+//@ func rule.formatID
+//@ modifies alloc
+//@ ensures[C07] id == 4294967295 ==> result0 == "-1"
+//@ ensures[C07] id != 4294967295 ==> result0 == strDec(id)
+//@ ensures[C07] id != 4294967295 ==> result0 != "-1" && result0 != "unset" && strIsNum(result0, 10, false) && strUval(result0, 10) == id
 //@ func rule.getDisplayArch
 //@ modifies alloc
 //@ ensures[C07] isNil(result1) && result0 != "b64" && result0 != "b32" ==> archID in auparse.AuditArchNames && result0 == auparse.AuditArchNames[archID]
